@@ -227,20 +227,10 @@ def groups(k):
             yield (i, j)
 
 
-def structures(kmax, classes):
-    """Every candidate structure (ops, group, lead, glead, types), before the well-typedness filter."""
-    for k in range(kmax + 1):
-        for ops in itertools.product(classes, repeat=k):
-            for g in groups(k):
-                for lead in ('', '-', '.not.'):
-                    for glead in (('', '-', '.not.') if g else ('',)):
-                        yield list(ops), g, lead, glead
-
-
 # --------------------------------------------------------------------------------------------- guarded arithmetic
 INT_MAX = 2 ** 31 - 1
-_REAL_DEN = 1 << 16        # real intermediates must be k / 2**16 ...
-_REAL_NUM = 1 << 22        # ... with |value| < 2**22 / 2**16 .. exactly representable in REAL(4) and REAL(8)
+_REAL_DEN = 1 << 16        # real intermediates must be k / 2**16 with at most 24 significant bits
+_REAL_MAX = 1 << 30        # ... and small: exactly representable in REAL(4) and REAL(8), no tolerance needed
 _ORIG = {}
 
 
@@ -254,8 +244,13 @@ def _guard(v):
             raise Undefined('integer overflow')
         return v
     if isinstance(v, Fraction):
-        if _REAL_DEN % v.denominator or abs(v.numerator) * (_REAL_DEN // v.denominator) >= _REAL_NUM * _REAL_DEN:
-            raise Undefined('real not exactly representable in the guarded range')
+        if _REAL_DEN % v.denominator:
+            raise Undefined('real is not a multiple of 2**-16')
+        scaled = abs(v.numerator) * (_REAL_DEN // v.denominator)
+        if scaled:
+            scaled >>= (scaled & -scaled).bit_length() - 1          # strip trailing zero bits
+        if scaled.bit_length() > 24 or abs(v) >= _REAL_MAX:
+            raise Undefined('real not exactly representable in REAL(4)')
     return v
 
 
@@ -833,11 +828,16 @@ _DEFAULTS = set(NUMVARS) | set(LOGVARS)
 SIMPLER = {'t%y': 't%x'}          # operand alternatives that have a simpler member of the same family
 
 
+def operand_is_logical(text):
+    t = text.lower()
+    return t in LOGVARS or t == 't%p' or t.startswith(('.true.', '.false.', 'lg('))
+
+
 def _redefault(c):
     """After a structural change: default-variable operands follow their (new) position and type."""
     ty = operand_types(c['ops'], c['group'], c['lead'], c['glead'])
-    if not c['ops'] and c['operands'][0] in _DEFAULTS:
-        ty = ['n' if c['operands'][0] in NUMVARS else 'l']
+    if not c['ops']:
+        ty = ['l' if operand_is_logical(c['operands'][0]) else 'n']
     for pos, x in enumerate(c['operands']):
         if x in _DEFAULTS:
             c['operands'][pos] = NUMVARS[pos] if ty[pos] == 'n' else LOGVARS[pos]
@@ -899,7 +899,7 @@ def normalisations(c):
             d['operands'][pos] = SIMPLER[x]
             out.append(d)
         if x not in _DEFAULTS:
-            for t in ([ty[pos]] if c['ops'] else ['n', 'l']):
+            for t in ([ty[pos]] if c['ops'] else ['l' if operand_is_logical(x) else 'n']):
                 d = _copy(c)
                 d['operands'][pos] = NUMVARS[pos] if t == 'n' else LOGVARS[pos]
                 out.append(d)
@@ -919,8 +919,7 @@ def canonical(c):
     d = _copy(c, style='spaced')
     ty = operand_types(d['ops'], d['group'], d['lead'], d['glead'])
     if not d['ops']:
-        ty = ['l' if operand_vars(d['operands'][0])[:1] == [(d['operands'][0].lower(), 'l')] or
-              d['operands'][0].lower().startswith(('.t', '.f', 'lg(')) else 'n']
+        ty = ['l' if operand_is_logical(d['operands'][0]) else 'n']
     d['operands'] = default_operands(ty)
     d['ops'] = [CANON_REL if o in REL_ALL else '.eqv.' if o == '.neqv.' else o for o in d['ops']]
     return d
@@ -1129,7 +1128,7 @@ def run(ctx):
     ctx.require(nontrivial >= n // 2, f'only {nontrivial} of {n} strings are non-trivial')
     ctx.require(len(fp_refused) <= n // 50, f'frontend refused {len(fp_refused)} strings, e.g. {fp_refused[:5]}')
     ctx.require(by_status['refused'] <= n // 5, f'parse_expr refused {by_status["refused"]} of {n} strings')
-    ctx.require(len(got) >= (1000 if ctx.quick else 30000), f'only {len(got)} strings validated against gfortran')
+    ctx.require(len(got) >= (1000 if ctx.quick else 20000), f'only {len(got)} strings validated against gfortran')
     if fnotes:
         ctx.note(f'{len(fnotes)} strings on which the FP frontend tree and Fortran semantics disagree (not judged here), '
                  f'e.g. {fnotes[:3]}')
